@@ -104,8 +104,10 @@ impl ToTokens for FromMetaImpl<'_> {
             Data::Enum(ref variants) => {
                 let unit_arms = variants.iter().map(Variant::as_unit_match_arm);
 
-                let unknown_variant_err = if !variants.is_empty() {
-                    let names = variants.iter().map(Variant::as_name);
+                // Skipped variants cannot be selected, so they must not be offered as suggestions.
+                let selectable = || variants.iter().filter(|v| !v.skip);
+                let unknown_variant_err = if selectable().next().is_some() {
+                    let names = selectable().map(Variant::as_name);
                     quote! {
                         unknown_field_with_alts(__other, &[#(#names),*])
                     }
